@@ -1,6 +1,6 @@
 (* C14 - sunmerge key by key; unmerge is the inverse of merge; the invariant of all histories
    (elements appear once, contributors exact, delegations keyed by a contributor, union of the merged
-   models); rollback; witnesses of the two ways the code falls short (contraction mark, connection residue). *)
+   models); rollback; witness of the way the code falls short (connection residue). *)
 From Coq Require Import List NArith Bool Lia Permutation.
 From FIM Require Import Model.Cbm14Spec Proofs.Cbm14Assoc Proofs.Cbm14Merge.
 Import ListNotations.
@@ -22,11 +22,9 @@ Proof.
       apply filter_In in Hin as [_ Hq]. simpl in Hq.
       apply (has_true_iff N.eqb Neq) in H1. unfold hasn in Hq. rewrite H1 in Hq. discriminate.
   - apply NoDup_keys_app.
-    + rewrite (keys_map (fun k df => (fst df, snd df || hase k (adm_edges A)))). exact N2.
-    + rewrite (keys_map (fun _ d => (d, false))). apply NoDup_keys_filter. exact WA2.
+    + exact N2.
+    + apply NoDup_keys_filter. exact WA2.
     + intros k H1 H2.
-      rewrite (keys_map (fun k df => (fst df, snd df || hase k (adm_edges A)))) in H1.
-      rewrite (keys_map (fun _ d => (d, false))) in H2.
       apply in_map_iff in H2 as ([k' a] & E & Hin). simpl in E; subst k'.
       apply filter_In in Hin as [_ Hq]. simpl in Hq.
       apply (has_true_iff ekey_eqb ekey_eqb_eq) in H1. unfold hase in Hq. rewrite H1 in Hq. discriminate.
@@ -80,8 +78,6 @@ Definition not_contributor (g : N) (C : cbm) : Prop :=
 Definition no_new_inner_edges (C : cbm) (A : adm) : Prop :=
   forall e, hase e (adm_edges A) = true -> hasn (fst e) (nodes C) = true -> hasn (snd e) (nodes C) = true ->
             hase e (edges C) = true.
-Definition no_shared_edge (C : cbm) (A : adm) : Prop :=
-  forall e, hase e (edges C) = true -> hase e (adm_edges A) = false.
 
 Lemma filter_notin g l : ~ In g l -> filter (fun x => negb (x =? g)) l = l.
 Proof.
@@ -146,11 +142,7 @@ Qed.
 
 Lemma unmerge_edges C A C' e :
   wf_cbm C -> wf_adm A -> not_contributor (adm_id A) C -> no_new_inner_edges C A -> smerge C A = Some C' ->
-  gete e (edges (sunmerge C' (adm_id A))) =
-  match gete e (edges C) with
-  | Some (d, f) => Some (d, f || hase e (adm_edges A))
-  | None => None
-  end.
+  gete e (edges (sunmerge C' (adm_id A))) = gete e (edges C).
 Proof.
   intros WC WA NC NI H. pose proof WC as (ND & AL & KY & DG).
   pose proof (smerge_nodup _ _ _ WA ND H) as [_ ND'].
@@ -158,37 +150,21 @@ Proof.
   assert (forall k, hasn k (nodes (sunmerge C' (adm_id A))) = hasn k (nodes C)) as HH.
   { intro k. unfold hasn, has. fold (@getn cnode). rewrite (unmerge_nodes C A C' k); auto. }
   rewrite !HH. rewrite (smerge_get_edge _ _ _ e H).
-  destruct (gete e (edges C)) as [[d f]|] eqn:Ec.
-  - assert (hase e (edges C) = true) as X by (unfold hase, has; fold (@gete (edata * bool)); rewrite Ec; reflexivity).
-    destruct (DG e X) as [-> ->]. simpl.
-    unfold hase, has. fold (@gete edata). destruct (gete e (adm_edges A)); simpl;
-      [rewrite orb_true_r | rewrite orb_false_r]; reflexivity.
+  destruct (gete e (edges C)) as [d|] eqn:Ec.
+  - assert (hase e (edges C) = true) as X by (unfold hase, has; fold (@gete edata); rewrite Ec; reflexivity).
+    destruct (DG e X) as [-> ->]. reflexivity.
   - destruct (gete e (adm_edges A)) as [d|] eqn:Ea; auto.
     destruct (hasn (fst e) (nodes C)) eqn:X1, (hasn (snd e) (nodes C)) eqn:X2; simpl; auto.
     assert (hase e (adm_edges A) = true) as Y by (unfold hase, has; fold (@gete edata); rewrite Ea; reflexivity).
-    specialize (NI e Y X1 X2). unfold hase, has in NI. fold (@gete (edata * bool)) in NI. rewrite Ec in NI. discriminate.
+    specialize (NI e Y X1 X2). unfold hase, has in NI. fold (@gete edata) in NI. rewrite Ec in NI. discriminate.
 Qed.
 
 Theorem unmerge_inverse C A C' :
   wf_cbm C -> wf_adm A -> not_contributor (adm_id A) C -> no_new_inner_edges C A ->
-  smerge C A = Some C' -> eqv_noflag (sunmerge C' (adm_id A)) C.
+  smerge C A = Some C' -> eqv (sunmerge C' (adm_id A)) C.
 Proof.
   intros WC WA NC NI H. split.
   - intro k. rewrite (unmerge_nodes C A C' k); auto; try apply WC.
     destruct (getn k (nodes C)); simpl; auto using eqv_node_refl.
-  - intro e. rewrite (unmerge_edges C A C' e); auto.
-    destruct (gete e (edges C)) as [[d f]|]; reflexivity.
-Qed.
-
-Theorem unmerge_inverse_exact C A C' :
-  wf_cbm C -> wf_adm A -> not_contributor (adm_id A) C -> no_new_inner_edges C A -> no_shared_edge C A ->
-  smerge C A = Some C' -> eqv (sunmerge C' (adm_id A)) C.
-Proof.
-  intros WC WA NC NI NS H. split.
-  - intro k. rewrite (unmerge_nodes C A C' k); auto; try apply WC.
-    destruct (getn k (nodes C)); simpl; auto using eqv_node_refl.
-  - intro e. rewrite (unmerge_edges C A C' e); auto.
-    destruct (gete e (edges C)) as [[d f]|] eqn:Ec; auto.
-    rewrite NS; [rewrite orb_false_r; reflexivity|].
-    unfold hase, has. fold (@gete (edata * bool)). rewrite Ec. reflexivity.
+  - intro e. apply (unmerge_edges C A C' e); auto.
 Qed.
